@@ -898,6 +898,44 @@ pub const MONITOR_TAIL: TailSpec = TailSpec { known: &[1, 3, 5, 7, 9, 11, 13, 15
 pub const UPDATE_TAIL: TailSpec = TailSpec { known: &[1, 3], always: &[3] };
 pub const MANAGER_TAIL: TailSpec = TailSpec { known: &[1, 2, 3, 4, 5, 6, 7, 8, 9, 10, 11, 13, 14, 15, 17, 19, 21, 23], always: &[1, 3, 5, 7, 9, 11, 15, 21, 23] };
 
+thread_local! {
+	/// (tails located, tails not located unambiguously) by [`tlv_injection_oracle`] since the last reset
+	pub static TLV_STATS: std::cell::Cell<(u64, u64)> = std::cell::Cell::new((0, 0));
+}
+
+pub const GRAPH_TAIL: TailSpec = TailSpec { known: &[1], always: &[] };
+pub const SCORER_TAIL: TailSpec = TailSpec { known: &[0], always: &[0] };
+pub const SWEEPER_TAIL: TailSpec = TailSpec { known: &[0, 2], always: &[0, 2] };
+
+/// Unknown-TLV oracle for objects read through a closure: `read(bytes)` returns a canonical rendering of the
+/// object (or Err). Odd unknown records appended to the structurally located tail stream must leave the
+/// rendering unchanged, even ones must make the read fail. Returns false if the tail could not be located
+/// unambiguously.
+pub fn tlv_injection_oracle(kind: &str, bytes: &[u8], spec: &TailSpec, read: &dyn Fn(&[u8]) -> Result<Vec<u8>, String>) -> Result<bool, Failure> {
+	let Ok(tail) = locate_tail(bytes, spec) else {
+		TLV_STATS.with(|c| c.set((c.get().0, c.get().1 + 1)));
+		return Ok(false);
+	};
+	TLV_STATS.with(|c| c.set((c.get().0 + 1, c.get().1)));
+	let base = read(bytes).map_err(|e| fail("corrupt-base-read", format!("{}-read/harvested", kind), e))?;
+	for (typ, val) in [(1001u64, &[1u8, 2, 3][..]), (0xffff_ffff_ffffu64 | 1, &[][..]), (43, &[0u8; 40][..])] {
+		match read(&inject_tail_record(bytes, tail, typ, val)) {
+			Err(e) => return Err(fail("tlv-odd-unknown", format!("tlv-odd-unknown/{}", kind), format!("{} with unknown odd TLV type {} appended to its tail stream is rejected: {}", kind, typ, e))),
+			Ok(r) => {
+				if r != base {
+					return Err(fail("tlv-odd-unknown", format!("tlv-odd-unknown-changed/{}", kind), format!("{} read with unknown odd TLV type {} differs from the one read without", kind, typ)));
+				}
+			},
+		}
+	}
+	for typ in [1000u64, 42, 0xffff_fffe] {
+		if read(&inject_tail_record(bytes, tail, typ, &[9u8, 9])).is_ok() {
+			return Err(fail("tlv-even-unknown", format!("tlv-even-unknown/{}", kind), format!("{} with unknown even TLV type {} in its tail stream is accepted", kind, typ)));
+		}
+	}
+	Ok(true)
+}
+
 /// Locate the tail TLV stream structurally: positions whose BigSize length equals the remaining length and
 /// whose content parses as an ascending TLV stream with only known types, including the always-written
 /// ones. Returns (position of the length prefix, position of the content) if exactly one position qualifies.
@@ -1625,6 +1663,12 @@ pub mod aux {
 		if c1.is_none() || c1 != c2 {
 			return Err(fail("scorer-reencode", "scorer-reencode".into(), format!("write(read(write(s))) differs from write(s) (entries sorted by channel): {} vs {} bytes", b2.len(), b1.len())));
 		}
+		let render = |b: &[u8]| -> Result<Vec<u8>, String> {
+			let mut r = b;
+			let s = <ProbabilisticScorer<&'static Graph, &'static TestLogger>>::read(&mut r, (decay_params, g, logger)).map_err(|e| format!("{:?}", e))?;
+			canonical_scorer_bytes(&s.encode()).ok_or_else(|| "not canonicalisable".to_string())
+		};
+		tlv_injection_oracle("scorer", &b1, &SCORER_TAIL, &render)?;
 		let entries = scorer_entry_count(&b1);
 		let mut res = ScorerResult { entries, nonempty_buckets: false, queries: 0, nonzero_penalties: 0 };
 		let ro = g.read_only();
@@ -1700,6 +1744,18 @@ pub mod aux {
 		if !same_bytes_modulo_order(&b1, &b2) {
 			return Err(fail("graph-reencode", "graph-reencode".into(), format!("write(read(write(g))): {} vs {} bytes", b2.len(), b1.len())));
 		}
+		// unknown TLV records in the graph's tail stream (rendering: sorted channel / node listing + timestamp)
+		let render = |b: &[u8]| -> Result<Vec<u8>, String> {
+			let mut r = b;
+			let g = Graph::read(&mut r, logger).map_err(|e| format!("{:?}", e))?;
+			let ro = g.read_only();
+			let mut lines: Vec<String> = ro.channels().unordered_iter().map(|(k, v)| format!("{} {:?}", k, v)).collect();
+			lines.extend(ro.nodes().unordered_iter().map(|(k, v)| format!("{} {:?} {:?}", k, v.channels, v.announcement_info)));
+			lines.sort();
+			lines.push(format!("{:?}", g.get_last_rapid_gossip_sync_timestamp()));
+			Ok(lines.join("\n").into_bytes())
+		};
+		tlv_injection_oracle("graph", &b1, &GRAPH_TAIL, &render)?;
 		Ok(())
 	}
 }
